@@ -454,7 +454,43 @@ def case_api(ctx, inp):
         ctx.branch("api-axis1")
 
 
-CASES = {"shape": case_shape, "reduce": case_reduce, "reduce2": case_reduce2, "api": case_api}
+def case_lenparts(ctx, inp):
+    """len() of a from_pandas collection and of selections of its partitions (FromPandas answers Len from memoised
+    partition lengths: the memo of the whole collection must not leak into `.partitions[...]`)"""
+    import pandas as pd
+    dd = U.dd()
+    n = inp["n"]
+    df = pd.DataFrame({"a": list(range(n)), "b": [float(i % 3) for i in range(n)]}, index=pd.Index(inp["index"], name="k"))
+    d = dd.from_pandas(df, npartitions=inp["npartitions"], sort=True)
+    obj_d, obj_p = (d, df) if inp["what"] == "frame" else (d["a"], df["a"]) if inp["what"] == "column" else (None, None)
+    if inp["what"] == "series":
+        obj_p = df["a"].copy()
+        obj_d = dd.from_pandas(obj_p, npartitions=inp["npartitions"], sort=True)
+    if inp["len_first"]:
+        got = len(obj_d)
+        if got != len(obj_p):
+            ctx.fail("len(collection) differs from pandas", observed=got, expected=len(obj_p))
+    nparts = obj_d.npartitions
+    for sel in inp["selections"]:
+        sel = [i % nparts for i in sel] if isinstance(sel, list) else sel % nparts
+        part = obj_d.partitions[sel]
+        expected = len(part.compute(scheduler="sync"))
+        got = len(part)
+        if got != expected:
+            ctx.fail(f"len(x.partitions[{sel}]) differs from the computed length (len taken first: {inp['len_first']})",
+                     observed=got, expected=expected)
+            return
+    total = sum(len(obj_d.partitions[i]) for i in range(nparts))
+    if total != len(obj_p) or len(obj_d) != len(obj_p):
+        ctx.fail("partition lengths do not add up to the length of the collection", observed=[total, len(obj_d)], expected=len(obj_p))
+    ctx.branch("lenparts-" + inp["what"])
+    if inp["len_first"]:
+        ctx.branch("lenparts-len-taken-first")
+    if nparts > 1:
+        ctx.branch("lenparts-multipartition")
+
+
+CASES = {"shape": case_shape, "reduce": case_reduce, "reduce2": case_reduce2, "api": case_api, "lenparts": case_lenparts}
 
 
 # ------------------------------------------------------------------------------------------------
@@ -553,6 +589,11 @@ def generate(ctx):
                          "se": rng.choice(SES), "dtype": dtype, "known": rng.random() < 0.7}
     for _ in range(ctx.n(110, 2500)):
         yield "reduce2", gen_reduce2(rng)
+    for _ in range(ctx.n(24, 300)):
+        n = rng.randint(1, 14)
+        yield "lenparts", {"n": n, "index": sorted(rng.sample(range(40), n)), "npartitions": rng.randint(1, 4),
+                           "what": rng.choice(["frame", "column", "series"]), "len_first": rng.random() < 0.7,
+                           "selections": [rng.choice([rng.randint(0, 3), [rng.randint(0, 3), rng.randint(0, 3)]]) for _ in range(3)]}
     for _ in range(ctx.n(230, 4000)):
         yield "api", gen_api(rng)
 
